@@ -111,14 +111,14 @@ Qed.
 Lemma plan_steps_inv : forall ss off cm c ws need pl,
   plan_steps ss off cm c ws need = Some pl -> writes_within ws need ->
   writes_within (p_writes pl) (p_need pl) /\ need <= p_need pl /\
-  p_need pl <= Nat.max need (off + body_len ss) /\
+  p_need pl <= Nat.max need (S (off + body_len ss)) /\
   p_off pl <= off + body_len ss /\
   (off <= need -> p_off pl <= p_need pl).
 Proof.
   induction ss as [|st r IH]; intros off cm c ws need pl H Hw.
   - cbn in H. inversion H; subst. cbn. repeat split; auto; lia.
   - cbn [plan_steps] in H. cbn [body_len fold_right]. fold (body_len r).
-    destruct st as [bs|s cf|n].
+    destruct st as [bs|s cf|n| |].
     + assert (Hw1 : writes_within (ws ++ [(off, bs)]) (Nat.max need (off + length bs))).
       { apply writes_within_app; [apply (writes_within_mono ws need); [assumption|lia]|apply writes_within_one; cbn; lia]. }
       destruct (IH _ _ _ _ _ _ H Hw1) as (A & B & C & D & E). cbn [step_len]. repeat split; auto; try lia.
@@ -129,6 +129,11 @@ Proof.
       destruct (IH _ _ _ _ _ _ H Hw1) as (A & B & C & D & F). cbn [step_len]. repeat split; auto; try lia.
     + assert (Hw1 : writes_within ws (Nat.max need (off + n))) by (apply (writes_within_mono ws need); [assumption|lia]).
       destruct (IH _ _ _ _ _ _ H Hw1) as (A & B & C & D & E). cbn [step_len]. repeat split; auto; try lia.
+    + assert (Hw1 : writes_within (ws ++ [(off, [0%N])]) (Nat.max need (off + 1))).
+      { apply writes_within_app; [apply (writes_within_mono ws need); [assumption|lia]|apply writes_within_one; cbn; lia]. }
+      destruct (IH _ _ _ _ _ _ H Hw1) as (A & B & C & D & E). cbn [step_len]. repeat split; auto; try lia.
+    + assert (Hw1 : writes_within ws (Nat.max need (off + 1))) by (apply (writes_within_mono ws need); [assumption|lia]).
+      destruct (IH _ _ _ _ _ _ H Hw1) as (A & B & C & D & E). cbn [step_len]. repeat split; auto; try lia.
 Qed.
 
 Lemma u16_len v : length (u16_bytes v) = 2. Proof. reflexivity. Qed.
@@ -137,7 +142,7 @@ Lemma plan_rr_inv : forall h bd off cm c hend pl, plan_rr h bd off cm c = Some (
   writes_within (p_writes pl) (p_need pl) /\
   p_off pl <= p_need pl /\
   p_off pl <= off + rr_len_c (rh_name name h) bd /\
-  p_need pl <= off + rr_len_c (rh_name name h) bd.
+  p_need pl <= S (off + rr_len_c (rh_name name h) bd).
 Proof.
   intros h bd off cm c hend pl H. unfold plan_rr in H.
   destruct (plan_name (rh_name name h) off cm c) as [p1|] eqn:E1; [|discriminate].
